@@ -55,12 +55,59 @@ def main(argv=None):
         mod.run(ctx)
     except SystemExit:
         raise
-    except BaseException:  # a crashing check is a broken check, say so loudly
+    except BaseException as e:
         traceback.print_exc()
+        if _raised_in_code_under_test(e):
+            # the warm-up / parent-side part of a check drives emg3d with
+            # valid documented inputs only; on the unchanged tree nothing
+            # raises.  An exception coming out of emg3d itself is therefore a
+            # finding about emg3d, not a broken check.
+            ctx.violation('parent-process', 'mc.runner:rerun_prepare',
+                          {'pid': pid}, {
+                              'cls': f'exception-in-code-under-test:'
+                                     f'{type(e).__name__}',
+                              'what': 'emg3d raised while the check prepared '
+                                      'or drove it in the parent process: '
+                                      + str(e).strip().split('\n')[0][:300],
+                              'observed': traceback.format_exc()[-3000:]})
+            return ctx.finish()
+        # a crashing check is a broken check, say so loudly
         print(f"CHECK-ERROR property={pid} (the check itself failed)")
         ctx.write_evidence(error=True)
         return 2
     return ctx.finish()
+
+
+def _raised_in_code_under_test(exc):
+    """Does the traceback end inside the emg3d package (or in numba while
+    compiling one of its kernels)?"""
+    try:
+        import emg3d
+        root = os.path.dirname(os.path.abspath(emg3d.__file__)) + os.sep
+    except Exception:  # noqa - emg3d itself does not import
+        return True
+    frames = traceback.extract_tb(exc.__traceback__)
+    inside = [os.path.abspath(f.filename).startswith(root) for f in frames]
+    if not any(inside):
+        return False
+    # last frame that is neither library nor checker code
+    last_emg3d = max(i for i, b in enumerate(inside) if b)
+    mc_root = os.path.dirname(os.path.abspath(__file__)) + os.sep
+    later_mc = any(os.path.abspath(f.filename).startswith(mc_root)
+                   for f in frames[last_emg3d+1:])
+    return not later_mc
+
+
+def rerun_prepare(c):
+    """Replay of a parent-process exception: run the check's warm-up."""
+    mod = find_module(c['pid'])
+    try:
+        if hasattr(mod, 'prepare'):
+            mod.prepare(None)
+    except Exception as e:  # noqa
+        return {'viol': [{'cls': 'exception-in-code-under-test:'
+                                 + type(e).__name__, 'what': str(e)[:300]}]}
+    return {'viol': []}
 
 
 if __name__ == '__main__':
